@@ -64,6 +64,10 @@ class Acc:
         return self.base + v
 
 @guppy
+def touch(a: array[int, 1]) -> None:
+    result("touch", a[0])
+
+@guppy
 def mkacc(v: int) -> Acc:
     result("mkacc", v)
     return Acc(v)
@@ -190,6 +194,12 @@ CONTEXTS_B = [
 CONTEXTS_EE = [
     ("subscript-assign", ["xs = array(10, 20)", "xs[{X}] = {Y}", 'result("a0", xs[0])', 'result("a1", xs[1])']),
     ("subscript-augassign", ["xs = array(10, 20)", "xs[{X}] += {Y}", 'result("a0", xs[0])', 'result("a1", xs[1])']),
+    # a NESTED subscript place lent to a callee: the place is visited again for the write-back (3 x 3, so that every
+    # leaf value is in bounds and the only difference Python can see is order / multiplicity)
+    ("nested-subscript-borrow", ["xss = array(array(array(1), array(2), array(3)), array(array(4), array(5), array(6)), array(array(7), array(8), array(9)))", "touch(xss[{X}][{Y}])",
+                                 'result("after", 1)', "touch(xss[0][1])"]),
+    ("nested-subscript-read", ["xss = array(array(array(1), array(2), array(3)), array(array(4), array(5), array(6)), array(array(7), array(8), array(9)))", 'result("v", xss[{X}][{Y}][0])',
+                               'result("after", 1)']),
     ("tuple-assign", ["a, b = {X}, {Y}", 'result("a", a)', 'result("b", b)']),
     ("while-cond", ["n = 0", "while n < {X} - {Y}:", "    n += 1", '    result("it", n)']),
 ]
